@@ -22,6 +22,9 @@ func (x *Exec) doCall(call *ssa.CallCommon, fnv Value, args []Value, st *State, 
 		x.events = append(x.events, callEvent{sf.Name, pc})
 		return nil
 	}
+	if _, ok := fnv.(*OpaqueV); ok && call.StaticCallee() == nil {
+		unsupported("call of a function value that is not a constant (in %s)", caller.Name())
+	}
 	var callee *ssa.Function
 	var bind []Value
 	if c := call.StaticCallee(); c != nil {
@@ -462,11 +465,19 @@ func (x *Exec) stub(callee *ssa.Function, args []Value, st *State, pc *Term) (Va
 			x.ghostSetV(st, "In", sl)
 		}
 		return &TupleV{E: []Value{sl, err}}, true
-	case "os.Create":
-		x.usedStub(fn + " (returns a file or an error)")
+	case "os.Create", "os.OpenFile":
+		x.usedStub(fn + " (returns a file or an error; the file starts empty iff it is created by os.Create or opened with O_TRUNC)")
 		o := x.newObj("os.File", nil)
 		st.h[o] = &StructV{}
-		return &TupleV{E: []Value{&PtrV{Obj: o}, x.osErr(st, pc, "os.Create")}}, true
+		if _, ok := x.ld.ghostField2(x, "Trunc"); ok {
+			tr := b.True()
+			if fn == "os.OpenFile" {
+				fl := args[1].(*Term)
+				tr = b.Not(b.Eq(b.Bin("bvand", fl, b.Const(fl.S.W, 0x200)), b.Const(fl.S.W, 0))) // O_TRUNC
+			}
+			x.ghostSet2(st, "Trunc", b.Ite(pc, tr, x.ghostGet2(st, "Trunc")))
+		}
+		return &TupleV{E: []Value{&PtrV{Obj: o}, x.osErr(st, pc, fn)}}, true
 	case "os.(*File).Close":
 		x.usedStub(fn)
 		return &IfaceV{Nil: b.Fresh("close_err_isnil", BoolS()), Opaque: "close.err"}, true
